@@ -797,6 +797,47 @@ func FeasibleEdge(from *ssa.BasicBlock, succIdx int) bool {
 	return true
 }
 
+// FlagConsistentEdges refines FeasibleEdge for a search that ends at `target`: when the
+// target is dominated by a fact about a boolean flag that is a phi of constants
+// (`killed := false; if … { killed = true }; … if killed { target }`), edges entering the
+// phi's block with the contradicting constant are pruned — the path that reaches the
+// target took the other assignment.
+func FlagConsistentEdges(target ssa.Instruction) func(from *ssa.BasicBlock, succIdx int) bool {
+	type key struct {
+		from, to *ssa.BasicBlock
+	}
+	bad := map[key]bool{}
+	for _, f := range FactsAt(target.Block()) {
+		v, want := f.Cond, f.Taken
+		for {
+			if u, ok := v.(*ssa.UnOp); ok && u.Op == token.NOT {
+				v, want = u.X, !want
+				continue
+			}
+			break
+		}
+		ph, ok := v.(*ssa.Phi)
+		if !ok {
+			continue
+		}
+		for j, e := range ph.Edges {
+			c, isC := e.(*ssa.Const)
+			if !isC || c.Value == nil || c.Value.Kind() != constant.Bool {
+				continue
+			}
+			if constant.BoolVal(c.Value) != want {
+				bad[key{ph.Block().Preds[j], ph.Block()}] = true
+			}
+		}
+	}
+	return func(from *ssa.BasicBlock, succIdx int) bool {
+		if !FeasibleEdge(from, succIdx) {
+			return false
+		}
+		return !bad[key{from, from.Succs[succIdx]}]
+	}
+}
+
 // PathString renders a block path with source positions.
 func (p *Prog) PathString(path []*ssa.BasicBlock) string {
 	var parts []string
